@@ -448,6 +448,29 @@ class MixinAnalysis:
             handler = [ev for ev in trace if ev.kind == "REENTER"]
             if exc.origin == "reenter":
                 re_ev = origin
+                # what set the rollback off: a hook veto (the recorded defect) or an explicit refusal of the request that is now
+                # raised only after the change has begun (validation moved behind the first write)
+                k_re = _index_of(trace, re_ev)
+                trig = [ev for ev in trace[:k_re] if ev.kind == "RAISE" and getattr(ev, "exc", None) in ("TreeError", "LoopError")]
+                def _inside_parent_assignment(k):
+                    depth_ = 0
+                    for ev in trace[:k]:
+                        if ev.kind == "ENTER" and ev.func.kind == "setter" and ev.func.srcname == "parent":
+                            depth_ += 1
+                        elif ev.kind in ("EXIT", "EXITRAISE") and ev.func.kind == "setter" and ev.func.srcname == "parent":
+                            depth_ -= 1
+                    return depth_ > 0
+                # (a refusal raised by the per-child `child.parent = node` in the middle of the loop is the recorded defect itself;
+                # what is new is a validation of the whole request that runs only after the first write)
+                if trig and any(ev.kind == "WRITE" for ev in trace[:_index_of(trace, trig[-1])]) \
+                        and not _inside_parent_assignment(_index_of(trace, trig[-1])):
+                    t_ev = trig[-1]
+                    out.setdefault(("A2", t_ev.func.where, t_ev.stmt_text()), (Problem(
+                        "A2", t_ev, "the request is refused (%s) only after links have been written; undoing that is left to a rollback that "
+                        "re-enters the veto-able entry point %s and can itself be refused: an invalid request no longer leaves the forest "
+                        "untouched" % (t_ev.exc, re_ev.name),
+                        construct="%s: refusal %s after a link write, left to the rollback" % (func.qual, t_ev.exc)), name, trace))
+                    continue
                 out.setdefault(("A2ii", re_ev.func.where, re_ev.stmt_text()), (Problem(
                     "A2ii", re_ev, "the rollback re-enters the veto-able entry point %s: a persistent veto makes the "
                     "compensation itself fail (and recurse), so the forest is not restored" % re_ev.name,
@@ -702,8 +725,18 @@ class MixinAnalysis:
                         "%s detach order" % func.qual, name, trace)
                 if completed:
                     # every former child the loop visited was detached (assignment of None), none skipped
-                    loops = [ev for ev in main if ev.kind == "ITER" and ev.a[0] == "snapshot" and ev.a[1] == nrole
-                             and ev.func.kind == "deleter"]
+                    import ast as _ast2
+
+                    def _detaching_loop(ev):
+                        # the loop that detaches the former children: in the deleter, or (after a refactoring) in a private helper
+                        # shared by setter and deleter - recognised by its body assigning `<element>.parent = None`
+                        if ev.func.kind == "deleter":
+                            return True
+                        nd = ev.node
+                        return isinstance(nd, _ast2.For) and any(
+                            isinstance(a_, _ast2.Assign) and any(isinstance(t_, _ast2.Attribute) and t_.attr == "parent" for t_ in a_.targets)
+                            and isinstance(a_.value, _ast2.Constant) and a_.value.value is None for a_ in _ast2.walk(nd))
+                    loops = [ev for ev in main if ev.kind == "ITER" and ev.a[0] == "snapshot" and ev.a[1] == nrole and _detaching_loop(ev)]
                     if len(loops) != len(dets):
                         bad("H4", main[0], "not every former child visited by the deleter loop is detached (%d visited, %d detached)" % (
                             len(loops), len(dets)), "%s skips children" % func.qual, name, trace)
